@@ -38,6 +38,8 @@ func runControls(pr *rules.Property, repo, verif string, known map[string]bool) 
 	files = append(files, m...)
 	// every behaviour-preserving control of any property must stay silent here too
 	neg, _ := filepath.Glob(filepath.Join(verif, "controls", "*", "neg-*.patch"))
+	res, _ := filepath.Glob(filepath.Join(verif, "controls", "*", "residual-*.patch"))
+	neg = append(neg, res...)
 	for _, f := range neg {
 		dup := false
 		for _, g := range files {
@@ -69,6 +71,9 @@ func runControls(pr *rules.Property, repo, verif string, known map[string]bool) 
 		}
 		if kind == "violation" && !mine {
 			continue
+		}
+		if kind == "silent" && strings.HasPrefix(filepath.Base(f), "residual-") && !mine {
+			continue // recorded residual false alarm of this property
 		}
 		jobs = append(jobs, job{f, kind, note})
 	}
